@@ -728,10 +728,21 @@ impl<T: ArrayValue> Array<T> {
         }) {
             // Handle drops that leave the array with no elements
             self.data = CowSlice::new();
+            let row_count = self.row_count();
             for (d, i) in self.shape.iter_mut().zip(index) {
                 *d = match i {
                     Ok(i) => d.saturating_sub(i.unsigned_abs()),
                     Err(_) => 0,
+                }
+            }
+            if let Some(map_keys) = self.meta.map_keys_mut()
+                && let Some(dropping) = index.first().copied()
+            {
+                let abs_dropping = dropping.map_or(row_count, isize::unsigned_abs);
+                if dropping.map_or(true, |i| i >= 0) {
+                    map_keys.drop(abs_dropping);
+                } else {
+                    map_keys.take(row_count.saturating_sub(abs_dropping));
                 }
             }
             return Ok(self);
